@@ -130,12 +130,14 @@ FIXED = {
  "fs:complete-missing-part-internal-error": "0932917", "fs:failed-complete-consumes-upload": "0932917",
  "fs:unknown-upload-code": "38336b0", "fs:list-parts-unknown-upload": "38336b0",
  "fs:part-number-not-validated": "531fc88",
+ "fs:stale-checksum-after-complete": "cf67827", "fs:stale-metadata-after-complete": "cf67827",
 }
 # repairs whose text says explicitly that it describes the code before the repair
 BEFORE = {"fs:head-missing-key-code", "fs:delete-missing-key-error", "fs:missing-bucket-reported-as-missing-key",
           "fs:delete-objects-in-missing-bucket", "fs:head-without-etag",
           "fs:complete-missing-part-internal-error", "fs:failed-complete-consumes-upload",
-          "fs:unknown-upload-code", "fs:list-parts-unknown-upload", "fs:part-number-not-validated"}
+          "fs:unknown-upload-code", "fs:list-parts-unknown-upload", "fs:part-number-not-validated",
+          "fs:stale-checksum-after-complete", "fs:stale-metadata-after-complete"}
 
 lines, findings = [], []
 for i, (cls, ops, what) in enumerate(W, 1):
